@@ -14,6 +14,7 @@ import (
 	"gitlab.com/yawning/obfs4.git/internal/zzverif/rnd"
 	"gitlab.com/yawning/obfs4.git/internal/zzverif/sched"
 	"gitlab.com/yawning/obfs4.git/internal/zzverif/wire"
+	"gitlab.com/yawning/obfs4.git/transports/base"
 	"gitlab.com/yawning/obfs4.git/transports/obfs4"
 )
 
@@ -553,6 +554,130 @@ func duplexStmt(name string, role string, iat int, bound int, seed int64) mc.Sce
 	}
 }
 
+// twoConnStmt: two established connections of one process (two clients, or two
+// connections wrapped by one server factory), each with a reader and a writer
+// thread, interleaved at every statement of Read/Write/packet/framing code.
+// Connections must not influence each other (no state shared across them).
+func twoConnStmt(name string, role string, iat int, bound int, seed int64) mc.Scenario {
+	return mc.Scenario{
+		Name:   name,
+		Params: map[string]any{"role": role, "iat": iat, "connections": 2},
+		Bound:  bound,
+		Weight: 500,
+		Run: func(c *mc.Ctx) {
+			br := o4h.NewBridge(seed, "c01/0", iat, false)
+			o4h.SetBias(false)
+			rnd.Install(rnd.New(seed, "c01-"+name))
+			type cn struct {
+				cw, sw     *wire.Conn
+				rs         *o4h.RefSession
+				conn       net.Conn
+				in, out    []byte
+				got        []byte
+				hsErr      error
+				refErr     error
+				rdErr      error
+				wrErr      error
+				rdone, ref bool
+			}
+			var cs []*cn
+			for i := 0; i < 2; i++ {
+				x := &cn{in: o4h.Pattern(byte('I'+i), 0, 90+i), out: o4h.Pattern(byte('O'+i), 0, 70+i)}
+				x.cw, x.sw = wire.Pipe(fmt.Sprintf("client%d", i), fmt.Sprintf("server%d", i))
+				cs = append(cs, x)
+			}
+			res := sched.Run(c, sched.Options{PreemptKinds: []string{"stmt"}, NoEarlyTimers: true, MaxSteps: 3_000_000}, func() {
+				s := sched.Cur()
+				var sf base.ServerFactory
+				if role == "server" {
+					var err error
+					if sf, err = br.ServerFactory(); err != nil {
+						cs[0].hsErr = err
+						return
+					}
+				}
+				hsDone := 0
+				for i, x := range cs {
+					i, x := i, x
+					refRnd := rnd.New(seed, fmt.Sprint("c01-ref-", name, i))
+					s.Spawn(fmt.Sprintf("ref-peer%d", i), func() {
+						defer func() { x.ref = true }()
+						if role == "client" {
+							x.rs, x.refErr = o4h.RefServer(x.sw, br.ID, o4h.ServerOpts{PadLen: 4, LenSeed: br.Seed}, refRnd)
+						} else {
+							x.rs, _, x.refErr = o4h.RefClient(x.cw, br.ID.Pub[:], br.ID.NodeID[:], o4h.ClientOpts{PadLen: 90}, refRnd)
+						}
+						if x.refErr != nil {
+							return
+						}
+						// the peer's data is on the wire before the readers start
+						x.rs.Send(x.in, 2)
+						s.Point("hs-done", func() bool { return hsDone == len(cs) })
+						for len(x.rs.Payload) < len(x.out) {
+							if _, err := x.rs.RecvOnce(); err != nil {
+								return
+							}
+						}
+					})
+				}
+				for _, x := range cs {
+					if role == "client" {
+						x.conn, x.hsErr = o4h.Dial(br.ClientArgs("cert", nil), x.cw)
+					} else {
+						x.conn, x.hsErr = sf.WrapConn(x.sw)
+					}
+					if x.hsErr != nil {
+						return
+					}
+					hsDone++
+				}
+				for i, x := range cs {
+					x := x
+					s.Spawn(fmt.Sprintf("reader%d", i), func() {
+						b := make([]byte, 64)
+						for len(x.got) < len(x.in) {
+							n, err := x.conn.Read(b)
+							x.got = append(x.got, b[:n]...)
+							if err != nil {
+								x.rdErr = err
+								break
+							}
+						}
+						x.rdone = true
+					})
+					s.Spawn(fmt.Sprintf("writer%d", i), func() {
+						_, x.wrErr = x.conn.Write(x.out)
+					})
+				}
+				s.Point("join", func() bool { return cs[0].rdone && cs[1].rdone && cs[0].ref && cs[1].ref })
+			})
+			if len(res.Panics) > 0 {
+				fail(c, "no-panic", "two-conn/panic", "%s", res.Panics[0])
+				return
+			}
+			for i, x := range cs {
+				if x.hsErr != nil || x.refErr != nil {
+					fail(c, "handshake", "two-conn/handshake", "connection %d handshake: real=%v ref=%v", i, x.hsErr, x.refErr)
+					return
+				}
+				if x.rdErr != nil || x.wrErr != nil {
+					fail(c, "io-error", "two-conn/io-error", "connection %d: read=%v write=%v on an untampered link", i, x.rdErr, x.wrErr)
+					return
+				}
+				if !bytes.Equal(x.got, x.in) {
+					fail(c, "prefix", "two-conn/stream-in", "connection %d delivered %d bytes that differ from what its peer sent (first difference at %d; quiescent=%v): connections influence each other", i, len(x.got), firstDiff(x.in, x.got), res.Quiescent)
+					return
+				}
+				if x.rs.RxErr != nil || !bytes.Equal(x.rs.Payload, x.out) {
+					fail(c, "prefix", "two-conn/stream-out", "the peer of connection %d decoded %d of %d bytes (err=%v): connections influence each other", i, len(x.rs.Payload), len(x.out), x.rs.RxErr)
+					return
+				}
+			}
+			c.Observe("ok", 2)
+		},
+	}
+}
+
 func main() {
 	mc.Main("C01", func(cfg *mc.Config, emit func(mc.Scenario)) {
 		scripts := []script{
@@ -608,6 +733,12 @@ func main() {
 					db = 2
 				}
 				emit(duplexStmt(fmt.Sprintf("duplex-stmt/%s/iat%d", role, iat), role, iat, db, cfg.Seed))
+			}
+			for _, iat := range []int{0, 2} {
+				if iat == 2 && !cfg.Thorough() && role == "server" {
+					continue
+				}
+				emit(twoConnStmt(fmt.Sprintf("two-connections-stmt/%s/iat%d", role, iat), role, iat, 1, cfg.Seed))
 			}
 		}
 		// reference server: handshake + payload coalesced, boundary splits
